@@ -528,8 +528,12 @@ def replay(ctx, rp):
     ties.install()
     try:
         case = rp.get("case") or {}
-        cfg = cfgs[case["config"]]
-        spec = spec_from_json(cfg, case["instance"])
+        try:
+            cfg = cfgs[case["config"]]
+            spec = spec_from_json(cfg, case["instance"])
+        except Exception as e:  # noqa  (the class of the replay does not exist in this tree)
+            ctx.note(f"replay input is not constructible on this tree ({type(e).__name__}: {e})")
+            return
         res = E.evaluate(cfg, spec, ties)
         ctx.count("eval_property")
         if res["kind"] and res["kind"] != "not-encodable":
